@@ -1,13 +1,17 @@
 """C19 — plugin registry: correspondence (model vs real code) + oracle (statement on real code)."""
 from __future__ import annotations
 
+import ast
+import hashlib
 import itertools
+import os
 import tempfile
 import warnings
 from pathlib import Path
 
 from harness import core
 from harness.core import enc, strs, bool_
+from harness.props import _c19_extract as ex
 
 PROP = "C19"
 REQUIRED_THEOREMS = [
@@ -15,30 +19,86 @@ REQUIRED_THEOREMS = [
     "set_plugin_repoints", "dotted_short_names_rejected", "set_plugin_unknown_rejected",
     "lookup_spec", "registered_names_complete", "every_plugin_reachable_partial",
     "every_plugin_reachable_counterexample",
+    # exactly when a plugin is shadowed (write trace of a history)
+    "every_plugin_reachable_iff", "every_plugin_reachable_of_no_collision", "every_plugin_reachable_iff_static",
+    "every_class_plugin_reachable", "every_plugin_reachable_counterexample_plain_name",
+    # the three registries as instances of the model (regenerated table Generated/C19.lean: accessors)
+    "known_names_instances", "is_known_instances", "get_instances", "register_set_instances",
+    "api_history_projects", "first_registration_wins_public",
+    # dispatch of the ten convenience functions (regenerated table: convFns) + format inference
+    "dispatch_uses_resolution", "infer_file_format_spec", "extOf_spec", "supported_file_extensions_instances",
 ]
+GEN_FILE = core.LEAN / "GlotaranModel" / "Generated" / "C19.lean"
 TRUSTED = [
     "hand-written model lean/GlotaranModel/C19.lean of glotaran/plugin_system/base_registry.py "
     "(add_plugin_to_registry, add_instantiated_plugin_to_registry, set_plugin, get_plugin_from_registry, "
     "registered_plugins), tied to the code by differential execution only",
     "Python dict semantics (insertion replaces, membership by string equality)",
+    "extractor harness/props/_c19_extract.py (ast over megacomplex_registration.py, data_io_registration.py, "
+    "project_io_registration.py, signatures of base_registry.py and infer_file_format): its tables are interpreted by the "
+    "model (callApi / dispatch) and cross-checked by running the real public functions on the same calls",
+    "hand-written model of io_plugin_utils.infer_file_format / os.path.splitext (posix), tied by differential execution",
 ]
 ASSUMPTIONS = [
     "full_plugin_name(plugin) = module + '.' + class name (always contains '.')",
-    "registries are only modified through the functions of base_registry.py",
+    "registries are only modified through the functions of base_registry.py (for the three registration modules this is "
+    "checked on the regenerated table: apiTableClosed)",
+    "dispatch is stated for calls that pass the overwrite check of the save_* functions (C18) and whose plugin method "
+    "returns normally; arguments are passed positionally or by their documented names",
 ]
 RULE = (
     "histories over an alphabet of register / set_plugin operations (short names a, b, the dotted a.b and dotted names that "
     "coincide with full names / full keys the registry holds, "
     "4 plugin classes of which two share a full name, class- and instance-style registration, 5 set targets); "
     "after every operation every key of the registry and of a fixed key universe is looked up and "
-    "registered_plugins(full/short) is read, on the real code and on the Lean model; a history is non-trivial "
+    "registered_plugins(full/short) is read, and the writes to dotted keys the operation made (recorded by the dict itself) "
+    "are compared with the model's write trace, on the real code and on the Lean model; a history is non-trivial "
     "when it contains at least one accepted registration; distinct = distinct operation sequences. "
-    "quick: seeded sample of the exhaustive length<=3 space + random length-12 histories + the public "
-    "register_data_io/register_project_io/register_megacomplex API; thorough: every history of length <= 4; "
-    "dispatch stream: after random register/set histories over the names a, b, yml, yaml with three recording plugin "
-    "classes all ten load_*/save_* convenience functions are called with an explicit and with an inferred format for every "
-    "name and an unknown one: exactly the resolved plugin's method must be called, unknown names must raise ValueError"
+    "quick: seeded sample of the exhaustive length<=3 space + random length-12 histories (these also draw registrations "
+    "that collide on a dotted key) + the two witnesses of the recorded finding; thorough: every history of length <= 4. "
+    "public API stream: random histories of register_* / set_*_plugin / get_* / is_known_* / known_* calls on all three "
+    "registries at once inside the monkeypatch context managers, executed on the model through the regenerated table "
+    "(api <function> [values]); every result, warning flag, error kind, the names listed in error messages and the instance "
+    "identity are compared and the key sets of all three registries are read after every call. "
+    "infer stream: infer_file_format on every path of a scratch tree (dotted folders, hidden files, trailing dot, missing "
+    "paths, str and Path) x the four flag settings + the signature defaults. "
+    "dispatch stream: after random register/set histories over the names a, b, yml, yaml and the empty name with three "
+    "recording plugin classes all ten load_*/save_* convenience functions are called on 7 paths of the scratch tree (18 in "
+    "all) x format_name in {absent, '', a, yml, yaml, zz}: outcome (methods called + plugin instance / which ValueError with "
+    "the names it lists) compared with the model's dispatch through the regenerated table, and with a model-independent "
+    "reading of the statement (oracle_format). extension stream: supported_file_extensions_* after random histories with "
+    "classes overriding different method subsets and names ending in _str / str"
 )
+
+def generate(ck):
+    """regenerate lean/GlotaranModel/Generated/C19.lean from the source text of VERIF_REPO"""
+    accessors, convs, exts, infer_defaults = ex.extract_all(core.REPO)
+    text = ex.render(accessors, convs, exts, infer_defaults)
+    GEN_FILE.parent.mkdir(parents=True, exist_ok=True)
+    if not GEN_FILE.exists() or GEN_FILE.read_text() != text:
+        GEN_FILE.write_text(text)
+    return [{
+        "table": "Accessors + ConvFns + ExtFns + inferDefaults (lean/GlotaranModel/Generated/C19.lean)",
+        "source": ex.SOURCES,
+        "source_sha1": ex.source_sha1(core.REPO),
+        "sha1": hashlib.sha1(text.encode()).hexdigest(),
+        "accessors": [a["name"] for a in accessors],
+        "convenience_functions": [c["name"] for c in convs],
+        "extension_functions": [e["name"] for e in exts],
+    }]
+
+
+class RecDict(dict):
+    """a registry dict that remembers every write (the base functions only need a MutableMapping)"""
+
+    def __init__(self):
+        super().__init__()
+        self.writes = []
+
+    def __setitem__(self, k, v):
+        self.writes.append((k, v))
+        super().__setitem__(k, v)
+
 
 # ------------------------------------------------------------------------------------------
 # alphabet
@@ -51,6 +111,15 @@ CLASSES = {  # tag -> (module, name)
 }
 SHORT = ["a", "b", "a.b"]
 UNIVERSE = ["a", "b", "c", "b_c", "a.b", "m.A", "m.B", "m.A_a", "m.A_b", "m.B_a", "m.B_b", "m.A_b_c", "zz"]
+# the two shapes of the recorded finding (Lean: every_plugin_reachable_counterexample / …_plain_name)
+WITNESSES = [
+    [("addinst", ["c"], "U"), ("addinst", ["b_c"], "X")],
+    [("addinst", ["b"], "X"), ("addinst", ["x"], "U"), ("addinst", ["x"], "U")],
+]
+
+
+# registrations that can collide on a dotted key (class m.A_b against class m.A + format b); used in the random streams only
+COLLIDE_OPS = [("addinst", ["b"], "U"), ("addinst", ["a"], "U"), ("addinst", ["b", "a"], "X")]
 
 
 def alphabet(full: bool):
@@ -86,7 +155,7 @@ class Real:
 
         self.br = br
         self.api = api
-        self.reg: dict = {}
+        self.reg: dict = RecDict()
         self.uid = 0
         self.uids: dict[int, int] = {}
         self.keep = []
@@ -198,9 +267,26 @@ def warned_keys(w, category):
     return out
 
 
-def observe_ops(real: Real):
+def trace_answer(real: Real, n_before: int) -> str:
+    """dotted-key writes of the last operation, as the model prints them for `wtrace <op>`"""
+    ws = [(k, v) for k, v in real.reg.writes[n_before:] if "." in k]
+    return "writes " + core.lst(f"[{enc(k)},{real.show(v)}]" for k, v in ws)
+
+
+def observe(real: Real):
+    """registered_plugins(full / short) and a lookup of every key of the registry and of the key universe, as one protocol
+    line (`obs [keys]`); the real functions are called key by key"""
+    br = real.br
     keys = sorted(set(UNIVERSE) | set(real.reg.keys()))
-    return [("registered", True), ("registered", False)] + [("get", k) for k in keys]
+    res = []
+    for k in keys:
+        try:
+            res.append(real.show(br.get_plugin_from_registry(k, real.reg, "nf")))
+        except ValueError:
+            res.append("-")
+    ans = ("obs names " + strs(br.registered_plugins(real.reg, full_names=True)) + " names "
+           + strs(br.registered_plugins(real.reg, full_names=False)) + " " + core.lst(res))
+    return "obs " + strs(keys), ans
 
 
 # ------------------------------------------------------------------------------------------
@@ -253,14 +339,34 @@ class Oracle:
             if reg.get(k) is not obj:
                 ck.violation("short-name-replaced", f"short name {k!r} no longer resolves to the plugin first "
                              f"registered / last set under it", case)
-        # every registered plugin reachable under its full key
-        for fk, full in self.registered:
+        # every registered plugin reachable under its full key — and under every other dotted name it was stored
+        # under (the plain full name of a conflicting registration, which the overwrite warning tells the user to pass to
+        # set_*_plugin).  The write trace is recorded by the dict itself (RecDict), not taken from the model.
+        trace = [(k, br.full_plugin_name(v)) for k, v in reg.writes if "." in k]
+        names_at: dict[str, set] = {}
+        for k, full in trace:
+            names_at.setdefault(k, set()).add(full)
+        promised = list(dict.fromkeys(self.registered + trace))
+        lost = []
+        for fk, full in promised:
             got = reg.get(fk)
             if got is None or br.full_plugin_name(got) != full:
                 other = None if got is None else br.full_plugin_name(got)
-                collide = other is not None and other != full and (fk.startswith(other + "_") or other.startswith(full))
+                # the recorded finding: two registrations wrote this dotted key with different full names
+                collide = len(names_at.get(fk, ())) > 1
                 key = "fullkey-underscore-collision" if collide else "plugin-unreachable"
+                lost.append(fk)
                 ck.violation(key, f"plugin {full!r} registered under {fk!r} is not retrievable there (found {other!r})", case)
+        for fk, full in self.registered:
+            if (fk, full) not in trace:
+                ck.violation("registration-not-stored", f"accepted registration of {full!r} never wrote its full key {fk!r}", case)
+        # the characterisation (Lean: every_plugin_reachable_iff) on the real registry: some promised name is lost
+        # exactly when two writes of the history collide on a dotted key
+        collision = any(len(v) > 1 for v in names_at.values())
+        ck.count("reachable-iff:" + ("collision" if collision else "no-collision"))
+        if collision != bool(lost):
+            ck.disagree("reachable-iff-vs-impl", f"write trace of the real registry has collision={collision} but lost names={lost}",
+                        case)
 
 
 # ------------------------------------------------------------------------------------------
@@ -273,16 +379,19 @@ def run_history(ck, hist, api="base", with_oracle=True):
     for op in hist:
         if orc:
             orc.before(op)
+        n_before = len(real.reg.writes)
         line, ans = real.apply(op)
+        if op[0] in ("add", "addinst", "set"):
+            lines.append("wtrace " + line)
+            impl.append(trace_answer(real, n_before))
         lines.append(line)
         impl.append(ans)
         done.append(list(op))
         if orc:
             orc.after(op, ans, [list(o) for o in done])
-        for o in observe_ops(real):
-            l, a = real.apply(o)
-            lines.append(l)
-            impl.append(a)
+        l, a = observe(real)
+        lines.append(l)
+        impl.append(a)
     return lines, impl
 
 
@@ -335,8 +444,31 @@ def shrink(ck, h):
 # ------------------------------------------------------------------------------------------
 # public API streams (register_* inside monkeypatched registries) + dispatch
 # ------------------------------------------------------------------------------------------
+def val_str(x: str) -> str:
+    return f"[s,{enc(x)}]"
+
+
+def val_strs(xs) -> str:
+    return f"[l,{strs(xs)}]"
+
+
+def val_cls(mod, name, uid) -> str:
+    return f"[c,{enc(mod)},{enc(name)},{uid}]"
+
+
+def names_in_message(msg: str):
+    """the list of names a ValueError of get_* prints at its end"""
+    try:
+        v = ast.literal_eval(msg[msg.rindex("["):].strip())
+        return v if isinstance(v, list) and all(isinstance(x, str) for x in v) else None
+    except (ValueError, SyntaxError):
+        return None
+
+
 def public_api(ck):
-    import xarray as xr
+    """histories of public calls on all three registries at once (inside the monkeypatch context managers), the same
+    calls on the model *through the regenerated table* (`api <function> [values]`), compared call by call; after every
+    call the keys of all three registries are compared (a call on one registry must not touch another)."""
     from glotaran.io.interface import DataIoInterface, ProjectIoInterface
     from glotaran.plugin_system import data_io_registration as dreg
     from glotaran.plugin_system import megacomplex_registration as mreg
@@ -348,190 +480,290 @@ def public_api(ck):
         monkeypatch_plugin_registry_project_io,
     )
 
-    calls = []
+    API = {
+        "megacomplex": dict(mod=mreg, register="register_megacomplex", is_known="is_known_megacomplex",
+                            known="known_megacomplex_names", set="set_megacomplex_plugin", get="get_megacomplex", base=object,
+                            message_full=True),
+        "data": dict(mod=dreg, register="register_data_io", is_known="is_known_data_format", known="known_data_formats",
+                     set="set_data_plugin", get="get_data_io", base=DataIoInterface, message_full=False),
+        "project": dict(mod=preg, register="register_project_io", is_known="is_known_project_format",
+                        known="known_project_formats", set="set_project_plugin", get="get_project_io", base=ProjectIoInterface,
+                        message_full=False),
+    }
+    n_hist = ck.n(120, 1500)
+    for hi in range(n_hist):
+        rng = ck.rng
+        counter = [0]
+        uids: dict[int, int] = {}
+        keep = []
 
-    def mk_data(mod, name):
-        def load_dataset(self, file_name, **kw):
-            calls.append(("load", self))
-            return xr.Dataset({"data": (("a",), [1.0])})
+        def mk(which, tag):
+            mod, name = CLASSES[tag]
+            base = API[which]["base"]
+            if which == "megacomplex":
+                cls = type(name, (object,), {"__module__": mod})
+                uids[id(cls)] = 100 + "XYZU".index(tag)
+                keep.append(cls)
+                return cls
 
-        def save_dataset(self, dataset, file_name, **kw):
-            calls.append(("save", self))
+            def __init__(self, format_name):
+                base.__init__(self, format_name)
+                uids[id(self)] = counter[0]
+                counter[0] += 1
+                keep.append(self)
 
-        return type(name, (DataIoInterface,), {"__module__": mod, "load_dataset": load_dataset, "save_dataset": save_dataset})
+            return type(name, (base,), {"__module__": mod, "__init__": __init__})
 
-    def mk_proj(mod, name):
-        def load_parameters(self, file_name, **kw):
-            calls.append(("load", self))
-            from glotaran.parameter import Parameters
-            return Parameters.from_list([1.0])
+        classes = {w: {t: mk(w, t) for t in "XYZU"} for w in API}
+        fn = lambda which, role: getattr(API[which]["mod"], API[which][role])
+        show = lambda obj: f"{enc(full_plugin_name(obj))}#{uids.get(id(obj), '?')}"
 
-        def save_parameters(self, parameters, file_name, **kw):
-            calls.append(("save", self))
+        def resolve(wh, k):
+            try:
+                return fn(wh, "get")(k)
+            except ValueError:
+                return None
 
-        return type(name, (ProjectIoInterface,), {"__module__": mod, "load_parameters": load_parameters,
-                                                 "save_parameters": save_parameters})
-
-    n_hist = ck.n(60, 600)
-    for which in ("data", "project", "megacomplex"):
-        for hi in range(n_hist):
-            rng = ck.rng
-            if which == "data":
-                cm, mk = monkeypatch_plugin_registry_data_io, mk_data
-                register = lambda names, cls: dreg.register_data_io(names)(cls)
-                setp, get, known = dreg.set_data_plugin, dreg.get_data_io, dreg.known_data_formats
-            elif which == "project":
-                cm, mk = monkeypatch_plugin_registry_project_io, mk_proj
-                register = lambda names, cls: preg.register_project_io(names)(cls)
-                setp, get, known = preg.set_project_plugin, preg.get_project_io, preg.known_project_formats
-            else:
-                cm = monkeypatch_plugin_registry_megacomplex
-                mk = lambda mod, name: type(name, (object,), {"__module__": mod})
-                register = lambda names, cls: [mreg.register_megacomplex(n, cls) for n in ([names] if isinstance(names, str) else names)]
-                setp, get, known = mreg.set_megacomplex_plugin, mreg.get_megacomplex, mreg.known_megacomplex_names
-            classes = {t: mk(*CLASSES[t]) for t in ("X", "Y", "Z")}
-            hist, lines, impl = [], ["reset"], ["reset"]
-            expect = {}
-            uid = 0
-            uids = {}
-            with cm({}, create_new_registry=True):
-                for _ in range(rng.randint(2, 8)):
-                    r = rng.random()
-                    with warnings.catch_warnings(record=True) as w:
-                        warnings.simplefilter("always")
-                        if r < 0.6:
-                            keys = rng.sample(["a", "b", "c"], rng.randint(1, 2))
+        hist, lines, impl = [], ["reset"], ["reset"]
+        expect = {}
+        with monkeypatch_plugin_registry_megacomplex({}, create_new_registry=True), \
+                monkeypatch_plugin_registry_data_io({}, create_new_registry=True), \
+                monkeypatch_plugin_registry_project_io({}, create_new_registry=True):
+            for _ in range(rng.randint(3, 10)):
+                which = rng.choice(list(API))
+                a = API[which]
+                get, known = fn(which, "get"), fn(which, "known")
+                r = rng.random()
+                case = {"api": which, "history": hist}
+                with warnings.catch_warnings(record=True) as w:
+                    warnings.simplefilter("always")
+                    if r < 0.5:
+                        tag = rng.choice("XXYZZU")
+                        mod, name = CLASSES[tag]
+                        if which == "megacomplex":
+                            keys = [rng.choice(["a", "b", "c", "a", "b", "a.b"])]
+                            single = True
+                        else:
+                            keys = rng.sample(["a", "b", "c", "x"], rng.randint(1, 2))
+                            single = len(keys) == 1 and rng.random() < 0.4
                             if rng.random() < 0.15:
                                 keys.insert(rng.randint(0, len(keys)), "a.b")
-                            elif rng.random() < 0.2:
+                                single = False
+                            elif rng.random() < 0.15:
                                 dotted = [x for x in known(full_names=True) if "." in x]
                                 if dotted:   # a dotted name the registry already knows (full name / full key)
                                     keys.insert(rng.randint(0, len(keys)), rng.choice(dotted))
-                            tag = rng.choice("XYZ")
-                            mod, name = CLASSES[tag]
-                            hist.append(["register", keys, tag])
-                            before = {k: (get(k) if k in known() else None) for k in ["a", "b", "c"]}
-                            try:
-                                register(list(keys), classes[tag])
-                                ans_err = None
-                            except ValueError:
-                                ans_err = "dotted"
-                            dpos = [i for i, k in enumerate(keys) if "." in k]
-                            dk = keys[dpos[0]] if dpos else None
-                            proc = keys[: dpos[0]] if dpos else keys
-                            if dpos and ans_err is None:
-                                ck.violation("dotted-accepted", f"{which}: short name {dk!r} containing '.' was accepted",
-                                             {"api": which, "history": hist})
-                            flags = []
-                            wk = warned_keys(w, PluginOverwriteWarning)
-                            for k in proc:
-                                old = before[k]
-                                should = old is not None and full_plugin_name(old) != f"{mod}.{name}"
-                                got = k in wk
-                                flags.append(got)
-                                if got != should:
-                                    ck.violation("warning-mismatch", f"{which}: conflicting registration of {k!r}: "
-                                                 f"warning issued={got}, expected={should}", {"api": which, "history": hist})
-                                if old is None:
-                                    expect[k] = get(k)
+                                    single = False
+                        hist.append(["register", which, keys, tag])
+                        before = {k: resolve(which, k) for k in ["a", "b", "c", "x"]}
+                        base_uid = counter[0]
+                        try:
                             if which == "megacomplex":
-                                # class-style: one `add` per key, uid = per registration
-                                for i, k in enumerate(proc + ([dk] if ans_err else [])):
-                                    lines.append(f"add {enc(k)} {enc(mod)} {enc(name)} {uid} ~")
-                                    uid += 1
-                                    if "." in k:
-                                        impl.append("err dotted")
-                                    else:
-                                        impl.append(f"ok {bool_(flags[i])}")
+                                fn(which, "register")(keys[0], classes[which][tag])
                             else:
-                                lines.append(f"addinst {strs(keys)} {enc(mod)} {enc(name)} {uid}")
-                                uid += len(proc) + (1 if ans_err else 0)
-                                if ans_err:
-                                    impl.append("err dotted" if not flags else "err dotted-after " + core.lst(map(bool_, flags)))
+                                fn(which, "register")(keys[0] if single else list(keys))(classes[which][tag])
+                            ans_err = None
+                        except ValueError:
+                            ans_err = "dotted"
+                        dpos = [i for i, k in enumerate(keys) if "." in k]
+                        proc = keys[: dpos[0]] if dpos else keys
+                        if dpos and ans_err is None:
+                            ck.violation("dotted-accepted", f"{which}: short name {keys[dpos[0]]!r} containing '.' was accepted", case)
+                        flags = []
+                        wk = warned_keys(w, PluginOverwriteWarning)
+                        for k in proc:
+                            old = before[k]
+                            should = old is not None and full_plugin_name(old) != f"{mod}.{name}"
+                            got = k in wk
+                            flags.append(got)
+                            if got != should:
+                                ck.violation("warning-mismatch", f"{which}: conflicting registration of {k!r}: "
+                                             f"warning issued={got}, expected={should}", case)
+                            if old is None:
+                                obj = resolve(which, k)
+                                if obj is None:
+                                    ck.violation("registered-not-resolvable", f"{which}: {k!r} does not resolve right after its "
+                                                 f"accepted registration", case)
                                 else:
-                                    impl.append("oks " + core.lst(map(bool_, flags)))
-                        elif r < 0.8:
-                            k = rng.choice(["a", "b", "a.b"])
-                            fulls = [x for x in known(full_names=True) if "." in x] + ["m.Nope", "nodot"]
-                            f = rng.choice(fulls)
-                            hist.append(["set", k, f])
-                            lines.append(f"set {enc(k)} {enc(f)}")
-                            try:
-                                target = get(f) if f in known(full_names=True) else None
-                                setp(k, f)
-                                impl.append("done")
-                                expect[k] = target
-                            except ValueError as e:
-                                if "." in k:
-                                    impl.append("err dotted")
-                                else:
-                                    impl.append("err unknown-full " + strs(sorted(x for x in known(full_names=True) if "." in x)))
+                                    expect[(which, k)] = obj
+                        if which == "megacomplex":
+                            lines.append(f"api {a['register']} [{val_str(keys[0])},{val_cls(mod, name, uids[id(classes[which][tag])])}]")
+                            impl.append("err dotted" if ans_err else f"ok {bool_(flags[0])}")
                         else:
-                            k = rng.choice(["a", "b", "c", "zz"])
-                            hist.append(["lookup", k])
-                            lines.append(f"get {enc(k)}")
-                            try:
-                                p = get(k)
-                                impl.append("found " + enc(full_plugin_name(p)))
-                            except ValueError as e:
-                                impl.append("err not-found")
-                                if not all(repr(n)[1:-1] in str(e) for n in known()):
-                                    ck.violation("unknown-message", f"{which}: ValueError for unknown name does not list the "
-                                                 f"known names", {"api": which, "history": hist, "message": str(e)})
-                    ck.oracle_evals += 1
-                    for k, obj in expect.items():
-                        if get(k) is not obj:
-                            ck.violation("short-name-replaced", f"{which}: short name {k!r} no longer resolves to the "
-                                         f"plugin first registered / last set", {"api": which, "history": hist})
-                # names at the end
-                lines.append("registered T")
-                impl.append("names " + strs(known(full_names=True)))
-                lines.append("registered F")
-                impl.append("names " + strs(known()))
-                # dispatch (data / project): the convenience functions use exactly the resolved plugin
-                if which in ("data", "project") and known():
-                    with tempfile.TemporaryDirectory() as td:
-                        for fmt in known():
-                            calls.clear()
-                            path = Path(td) / f"f.{fmt}"
-                            path.write_text("x")
-                            try:
-                                if which == "data":
-                                    dreg.load_dataset(path)                      # inferred from the extension
-                                    dreg.load_dataset(path, format_name=fmt)     # given
-                                    dreg.save_dataset(xr.Dataset({"data": (("a",), [1.0])}), Path(td) / f"new.{fmt}")
-                                else:
-                                    preg.load_parameters(path)
-                                    preg.load_parameters(path, format_name=fmt)
-                                    from glotaran.parameter import Parameters
-                                    preg.save_parameters(Parameters.from_list([1.0]), Path(td) / f"new.{fmt}")
-                            except Exception as e:
-                                ck.violation("dispatch-error", f"{which}: convenience function failed for registered format {fmt!r}: {e!r}",
-                                             {"api": which, "history": hist})
-                                continue
-                            ck.oracle_evals += 1
-                            want = get(fmt)
-                            if [c[1] for c in calls] != [want, want, want]:
-                                ck.violation("dispatch-wrong-plugin", f"{which}: load/save for format {fmt!r} did not dispatch to the "
-                                             "plugin the registry resolves", {"api": which, "history": hist})
-            yield which, hist, lines, impl
+                            kv = val_str(keys[0]) if single else val_strs(keys)
+                            lines.append(f"api {a['register']} [{kv},{val_cls(mod, name, base_uid)}]")
+                            if ans_err:
+                                impl.append("err dotted" if not flags else "err dotted-after " + core.lst(map(bool_, flags)))
+                            else:
+                                impl.append("oks " + core.lst(map(bool_, flags)))
+                    elif r < 0.68:
+                        k = rng.choice(["a", "b", "x", "a.b"])
+                        fulls = [x for x in known(full_names=True) if "." in x] + ["m.Nope", "nodot"]
+                        full = rng.choice(fulls)
+                        hist.append(["set", which, k, full])
+                        lines.append(f"api {a['set']} [{val_str(k)},{val_str(full)}]")
+                        try:
+                            target = resolve(which, full)
+                            fn(which, "set")(k, full)
+                            impl.append("done")
+                            expect[(which, k)] = target
+                        except ValueError:
+                            if "." in k:
+                                impl.append("err dotted")
+                            else:
+                                impl.append("err unknown-full " + strs(sorted(x for x in known(full_names=True) if "." in x)))
+                    elif r < 0.84:
+                        k = rng.choice(["a", "b", "c", "x", "zz"] + [x for x in known(full_names=True) if "." in x][:2])
+                        hist.append(["get", which, k])
+                        lines.append(f"api {a['get']} [{val_str(k)}]")
+                        try:
+                            impl.append("found " + show(get(k)))
+                        except ValueError as e:
+                            listed = names_in_message(str(e))
+                            impl.append(f"err unknown {enc(k)} " + (strs(listed) if listed is not None else "MESSAGE-UNPARSABLE"))
+                            want = known(full_names=a["message_full"])
+                            if listed is None or not set(known()) <= set(listed):
+                                ck.violation("unknown-message", f"{which}: ValueError for unknown name does not list the "
+                                             f"known names", {**case, "message": str(e)})
+                    elif r < 0.92:
+                        k = rng.choice(["a", "b", "c", "zz", "m.A", "m.A_a", "m.B_b"])
+                        hist.append(["is_known", which, k])
+                        lines.append(f"api {a['is_known']} [{val_str(k)}]")
+                        got = fn(which, "is_known")(k)
+                        impl.append(f"bool {bool_(got)}")
+                        ck.oracle_evals += 1
+                        if got != (k in known(full_names=True)):
+                            ck.violation("is-known-vs-known-names", f"{which}: is_known({k!r})={got} but known names say otherwise", case)
+                    else:
+                        flag = rng.choice([None, True, False])
+                        hist.append(["known", which, flag])
+                        lines.append(f"api {a['known']} [{'' if flag is None else bool_(flag)}]")
+                        impl.append("names " + strs(known() if flag is None else known(flag)))
+                ck.oracle_evals += 1
+                # known_*() without arguments lists the undotted keys, is_known_* agrees with known_*(full_names=True)
+                if known() != sorted(k for k in known(full_names=True) if "." not in k):
+                    ck.violation("known-default-not-short", f"{which}: known names without arguments are not the undotted keys", case)
+                for (wh, k), obj in expect.items():
+                    if resolve(wh, k) is not obj:
+                        ck.violation("short-name-replaced", f"{wh}: short name {k!r} no longer resolves to the "
+                                     f"plugin first registered / last set", {"api": wh, "history": hist})
+                # frame: all three registries after every call
+                for wh in API:
+                    lines.append(f"api {API[wh]['known']} [T]")
+                    impl.append("names " + strs(fn(wh, "known")(full_names=True)))
+        yield "mixed", hist, lines, impl
 
 
 # ------------------------------------------------------------------------------------------
 # dispatch of the load/save convenience functions (all ten) after register / set_plugin histories
 # ------------------------------------------------------------------------------------------
-def dispatch_stream(ck):
-    """The last clause of the statement: every load_*/save_* convenience function hands the call to exactly the plugin
+# paths of the scratch tree the convenience functions are called on: (relative path, kind)
+DISPATCH_TREE = [
+    ("f.a", "file"), ("f.b", "file"), ("f.yml", "file"), ("f.yaml", "file"), ("f.zz", "file"), ("noext", "file"),
+    (".a", "file"), ("f.", "file"), ("g.tar.a", "file"), ("..b", "file"), ("d.x/inner", "file"), ("d.x/f.b", "file"),
+    ("folder", "dir"), ("dir.a", "dir"), ("missing.a", "absent"), ("missing", "absent"), ("newdir/new.b", "absent"),
+    ("d.x/gone", "absent"),
+]
+REGULAR = {"f.a": "a", "f.b": "b", "f.yml": "yaml", "f.yaml": "yaml", "f.zz": "zz"}   # the oracle's own reading
+
+
+def oracle_format(fname: str, rel: str, kind: str, given):
+    """the statement read on one call, independent of the model: the format the registry must be asked for, or None when
+    the call must fail with ValueError before any plugin is touched.  `load_*` need an existing file (the result loader
+    also takes a folder or a path yet to be created), `save_*` do not; the extension names the format, `yml` reads as
+    `yaml`; without an extension the result functions mean `yaml`, everything else is an error."""
+    if given:
+        return given
+    is_load, is_result = fname.startswith("load_"), fname.endswith("_result")
+    if is_load and not is_result and kind != "file":
+        return None
+    name = rel.rsplit("/", 1)[-1]
+    stem, dot, ext = name.rpartition(".")
+    if dot and stem.strip(".") != "":
+        return "yaml" if ext == "yml" else ext
+    return "yaml" if is_result else None
+
+
+def build_tree(td: Path):
+    for rel, kind in DISPATCH_TREE:
+        p = td / rel
+        if kind == "file":
+            p.parent.mkdir(parents=True, exist_ok=True)
+            p.write_text("x")
+        elif kind == "dir":
+            p.mkdir(parents=True, exist_ok=True)
+
+
+def classify_value_error(e: ValueError) -> str:
+    msg = str(e)
+    if msg.startswith("There is no file"):
+        return "err no-file"
+    if msg.startswith("Cannot determine format"):
+        return "err no-extension"
+    import re
+    m = re.match(r"Unknown\s+(?:Project|Data) Io format (.*)\. Known formats are: (\[.*\])$", msg, re.S)
+    if m:
+        try:
+            fmt, known = ast.literal_eval(m.group(1)), ast.literal_eval(m.group(2))
+            return f"err unknown {enc(fmt)} {strs(known)}"
+        except (ValueError, SyntaxError):
+            pass
+    return "err other " + enc(msg[:60])
+
+
+def infer_stream(ck):
+    """io_plugin_utils.infer_file_format against the model, every path of the scratch tree x the four flag settings"""
+    from glotaran.plugin_system.io_plugin_utils import infer_file_format
+    lines, impl = [], []
+    with tempfile.TemporaryDirectory() as td:
+        td = Path(td)
+        build_tree(td)
+        for rel, kind in DISPATCH_TREE:
+            for as_path in (False, True):
+                p = td / rel
+                arg = p if as_path else str(p)
+                for nte in (True, False):
+                    for af in (True, False):
+                        lines.append(f"infer {enc(str(p))} {bool_(os.path.isfile(p))} {bool_(nte)} {bool_(af)}")
+                        try:
+                            impl.append("ok " + enc(infer_file_format(arg, needs_to_exist=nte, allow_folder=af)))
+                        except ValueError as e:
+                            impl.append(classify_value_error(e))
+                        ck.case(("infer", rel, as_path, nte, af), True)
+                        ck.count("stream:infer")
+        # the defaults of the signature (regenerated into the table as inferDefaults)
+        for rel in ("f.a", "missing.a", "folder"):
+            p = td / rel
+            lines.append(f"infer {enc(str(p))} {bool_(os.path.isfile(p))} T F")
+            try:
+                impl.append("ok " + enc(infer_file_format(str(p))))
+            except ValueError as e:
+                impl.append(classify_value_error(e))
+    model = core.lean_driver(PROP, lines)
+    for l, a, b in zip(lines, impl, model):
+        if a != b:
+            ck.disagree("infer-model-vs-impl", f"{l!r}: implementation {a!r}, model {b!r}", {"line": l})
+            break
+
+
+def dispatch_stream(ck, only=None):
+    """(`only`: a recorded case {api, history, function, file, format_name} to replay instead of generating)
+    The last clause of the statement: every load_*/save_* convenience function hands the call to exactly the plugin
     the registry resolves for the *given* format name, or for the format inferred from the file name (the extension;
-    'yml' is read as 'yaml'; a folder as 'yaml' for results) — and raises ValueError when that name is unknown."""
+    'yml' is read as 'yaml'; a folder as 'yaml' for results) — and raises ValueError when that name is unknown.
+    Every call is also made on the model through the regenerated table (`dispatch <function> [values] [files]`)."""
     import types
     import xarray as xr
     from glotaran.io.interface import DataIoInterface, ProjectIoInterface
     from glotaran.plugin_system import data_io_registration as dreg
     from glotaran.plugin_system import project_io_registration as preg
+    from glotaran.plugin_system.base_registry import full_plugin_name
     from glotaran.testing.plugin_system import monkeypatch_plugin_registry_data_io, monkeypatch_plugin_registry_project_io
 
     calls = []
+    counter = [0]
+    uids: dict[int, int] = {}
+    keep = []
 
     def rec(name, ret):
         def f(self, *a, **kw):
@@ -547,11 +779,21 @@ def dispatch_stream(ck):
                     "save_dataset": rec("save_dataset", lambda: None)}
     names = ["a", "yml", "yaml", "b"]
     for which in ("project", "data"):
+        if only and only["api"] != which:
+            continue
         base, methods = (ProjectIoInterface, proj_methods) if which == "project" else (DataIoInterface, data_methods)
-        classes = [type(n, (base,), {"__module__": "m", **methods}) for n in ("P1", "P2", "P3")]
+
+        def __init__(self, format_name, _base=base):
+            _base.__init__(self, format_name)
+            uids[id(self)] = counter[0]
+            counter[0] += 1
+            keep.append(self)
+
+        classes = [type(n, (base,), {"__module__": "m", "__init__": __init__, **methods}) for n in ("P1", "P2", "P3")]
         if which == "project":
             cm, register, setp, get, known = (monkeypatch_plugin_registry_project_io, preg.register_project_io,
                                               preg.set_project_plugin, preg.get_project_io, preg.known_project_formats)
+            reg_name, set_name = "register_project_io", "set_project_plugin"
             funcs = [("load_model", lambda p, f: preg.load_model(p, format_name=f), True),
                      ("save_model", lambda p, f: preg.save_model(ns(), p, format_name=f, allow_overwrite=True), False),
                      ("load_parameters", lambda p, f: preg.load_parameters(p, format_name=f), True),
@@ -563,61 +805,200 @@ def dispatch_stream(ck):
         else:
             cm, register, setp, get, known = (monkeypatch_plugin_registry_data_io, dreg.register_data_io,
                                               dreg.set_data_plugin, dreg.get_data_io, dreg.known_data_formats)
+            reg_name, set_name = "register_data_io", "set_data_plugin"
             funcs = [("load_dataset", lambda p, f: dreg.load_dataset(p, format_name=f), True),
                      ("save_dataset", lambda p, f: dreg.save_dataset(xr.Dataset({"data": (("a",), [1.0])}), p, format_name=f,
                                                                       allow_overwrite=True), False)]
-        for hi in range(ck.n(25, 400)):
+        for hi in range(1 if only else ck.n(25, 300)):
             rng = ck.rng
             hist = []
+            lines, impl = ["reset"], ["reset"]
             with cm({}, create_new_registry=True), warnings.catch_warnings():
                 warnings.simplefilter("ignore")
-                for _ in range(rng.randint(1, 5)):
-                    if rng.random() < 0.75 or not known():
+                for step in (only["history"] if only else range(rng.randint(1, 5))):
+                    if only:
+                        op = step
+                    elif rng.random() < 0.75 or not known():
                         ks = rng.sample(names, rng.randint(1, 2))
-                        ci = rng.randrange(3)
-                        register(ks)(classes[ci])
-                        hist.append(["register", ks, f"P{ci + 1}"])
+                        if rng.random() < 0.1:
+                            ks = [""]          # the empty format name can be registered as well
+                        op = ["register", ks, f"P{rng.randrange(3) + 1}"]
                     else:
                         fulls = [x for x in known(full_names=True) if "." in x]
-                        k, f = rng.choice(names), rng.choice(fulls)
-                        setp(k, f)
-                        hist.append(["set", k, f])
+                        op = ["set", rng.choice(names), rng.choice(fulls)]
+                    if op[0] == "register":
+                        ks, ci = list(op[1]), int(op[2][1:]) - 1
+                        lines.append(f"api {reg_name} [{val_strs(ks)},{val_cls('m', f'P{ci + 1}', counter[0])}]")
+                        register(ks)(classes[ci])
+                        impl.append(None)       # compared through the dispatch lines
+                    else:
+                        lines.append(f"api {set_name} [{val_str(op[1])},{val_str(op[2])}]")
+                        setp(op[1], op[2])
+                        impl.append("done")
+                    hist.append(list(op))
                 ck.case(("dispatch", which, repr(hist)), True)
                 ck.count(f"stream:dispatch-{which}")
                 with tempfile.TemporaryDirectory() as td:
-                    for fmt in names + ["zz"]:
-                        path = Path(td) / f"f.{fmt}"
-                        path.write_text("x")
-                        inferred = "yaml" if fmt == "yml" else fmt        # the documented inference from the extension
-                        for fname, call, _is_load in funcs:
-                            for given in (fmt, None):
-                                use = given if given is not None else inferred
+                    td = Path(td)
+                    build_tree(td)
+                    regular = rng.sample(sorted(REGULAR), 3)
+                    odd = rng.sample([r for r, _ in DISPATCH_TREE if r not in REGULAR], 4)
+                    for rel in ([only["file"]] if only else regular + odd):
+                        path = td / rel
+                        for fname, call, is_load in funcs:
+                            if only and fname != only["function"]:
+                                continue
+                            for given in ([only["format_name"]] if only else (None, "", "a", "yml", "yaml", "zz")):
                                 calls.clear()
-                                ck.oracle_evals += 1
-                                case = {"api": which, "history": hist, "function": fname, "file": f"f.{fmt}", "format_name": given}
+                                case = {"api": which, "history": hist, "function": fname, "file": rel, "format_name": given}
+                                files = strs([str(path)] if os.path.isfile(path) else [])
+                                g = "n" if given is None else val_str(given)
+                                pos = f"{val_str(str(path))},{g}" if is_load else f"o,{val_str(str(path))},{g}"
+                                lines.append(f"dispatch {fname} [{pos}] {files}")
                                 try:
-                                    call(path, given)
+                                    call(path if rng.random() < 0.5 else str(path), given)
                                     err = None
                                 except ValueError as e:
                                     err = e
                                 except Exception as e:     # anything else is not the documented behaviour
-                                    ck.violation("dispatch-error", f"{which}.{fname}(f.{fmt}, format_name={given!r}) raised {e!r}", case)
+                                    ck.violation("dispatch-error", f"{which}.{fname}({rel}, format_name={given!r}) raised {e!r}", case)
+                                    impl.append("raised " + type(e).__name__)
                                     continue
-                                if use in known():
+                                if err is not None:
+                                    impl.append(classify_value_error(err) if not calls else "err after-plugin-call")
+                                elif calls and all(o is calls[0][1] for _, o in calls):
+                                    o = calls[0][1]
+                                    impl.append(f"called {strs([n for n, _ in calls])} {enc(full_plugin_name(o))}#{uids[id(o)]}")
+                                else:
+                                    impl.append("called-several-or-none " + strs([n for n, _ in calls]))
+                                ck.count("dispatch-answer:" + impl[-1].split(" ")[0] + ("-" + impl[-1].split(" ")[1] if err is not None else ""))
+                                # oracle (independent of the model): the statement read on this call
+                                ck.oracle_evals += 1
+                                use = oracle_format(fname, rel, dict(DISPATCH_TREE)[rel], given)
+                                if use is None:
+                                    if err is None or calls:
+                                        ck.violation("dispatch-without-format", f"{which}.{fname}({rel}, format_name={given!r}): no "
+                                                     f"format can be determined (missing file / no extension) but no ValueError was "
+                                                     f"raised (called: {[n for n, _ in calls]})", case)
+                                    else:
+                                        ck.count("dispatch:no-format-rejected")
+                                elif use in known():
                                     want = get(use)
                                     if err is not None or [c for c in calls] != [(fname, want)]:
                                         ck.count("dispatch:wrong")
-                                        ck.violation("dispatch-wrong-plugin", f"{which}.{fname}(f.{fmt}, format_name={given!r}) did not "
+                                        ck.violation("dispatch-wrong-plugin", f"{which}.{fname}({rel}, format_name={given!r}) did not "
                                                      f"dispatch to the plugin the registry resolves for {use!r} "
                                                      f"(called: {[(n, type(o).__name__) for n, o in calls]}, error: {err!r})", case)
                                     else:
                                         ck.count("dispatch:resolved-plugin-called")
                                 else:
                                     if err is None or calls:
-                                        ck.violation("dispatch-unknown-format-accepted", f"{which}.{fname}(f.{fmt}, format_name={given!r}): "
+                                        ck.violation("dispatch-unknown-format-accepted", f"{which}.{fname}({rel}, format_name={given!r}): "
                                                      f"format {use!r} is unknown but no ValueError was raised", case)
                                     else:
                                         ck.count("dispatch:unknown-format-rejected")
+                                        if not set(known()) <= set(names_in_message(str(err)) or []):
+                                            ck.violation("unknown-message", f"{which}.{fname}: ValueError for the unknown format "
+                                                         f"{use!r} does not list the known formats", {**case, "message": str(err)})
+            yield which, hist, lines, impl
+
+
+def ext_stream(ck, only=None):
+    """(`only`: a recorded case {api, history, methods} to replay)
+    supported_file_extensions_data_io / _project_io after random register / set histories with plugin classes that
+    override different subsets of the interface methods, against the model (through the regenerated table) and against
+    the statement (oracle: the extension is listed iff the short name does not end in `_str` and its plugin's class
+    overrides every requested method)."""
+    from glotaran.io.interface import DataIoInterface, ProjectIoInterface
+    from glotaran.plugin_system import data_io_registration as dreg
+    from glotaran.plugin_system import project_io_registration as preg
+    from glotaran.testing.plugin_system import monkeypatch_plugin_registry_data_io, monkeypatch_plugin_registry_project_io
+
+    for which in ("project", "data"):
+        if only and only["api"] != which:
+            continue
+        if which == "project":
+            base, all_methods = ProjectIoInterface, list(preg.PROJECT_IO_METHODS)
+            cm, register, setp, get, known, sup = (monkeypatch_plugin_registry_project_io, preg.register_project_io,
+                                                   preg.set_project_plugin, preg.get_project_io, preg.known_project_formats,
+                                                   preg.supported_file_extensions_project_io)
+            reg_name, set_name, sup_name = "register_project_io", "set_project_plugin", "supported_file_extensions_project_io"
+        else:
+            base, all_methods = DataIoInterface, list(dreg.DATA_IO_METHODS)
+            cm, register, setp, get, known, sup = (monkeypatch_plugin_registry_data_io, dreg.register_data_io,
+                                                   dreg.set_data_plugin, dreg.get_data_io, dreg.known_data_formats,
+                                                   dreg.supported_file_extensions_data_io)
+            reg_name, set_name, sup_name = "register_data_io", "set_data_plugin", "supported_file_extensions_data_io"
+        counter = [0]
+        uids: dict[int, int] = {}
+        keep = []
+
+        def __init__(self, format_name, _base=base):
+            _base.__init__(self, format_name)
+            uids[id(self)] = counter[0]
+            counter[0] += 1
+            keep.append(self)
+
+        subsets = [all_methods, all_methods[:2], all_methods[1:2], []]
+        classes = [type(f"Q{i}", (base,), {"__module__": "m", "__init__": __init__,
+                                          **{m: (lambda self, *a, **k: None) for m in sub}}) for i, sub in enumerate(subsets)]
+        names = ["a", "b", "a_str", "_str", "astr", "str"]
+        for hi in range(1 if only else ck.n(20, 200)):
+            rng = ck.rng
+            hist, lines, impl = [], ["reset"], ["reset"]
+            with cm({}, create_new_registry=True), warnings.catch_warnings():
+                warnings.simplefilter("ignore")
+                for step in (only["history"] if only else range(rng.randint(1, 5))):
+                    if only:
+                        op = step
+                    elif rng.random() < 0.8 or not known():
+                        op = ["register", rng.sample(names, rng.randint(1, 2)), f"Q{rng.randrange(len(classes))}"]
+                    else:
+                        fulls = [x for x in known(full_names=True) if "." in x]
+                        op = ["set", rng.choice(names), rng.choice(fulls)]
+                    if op[0] == "register":
+                        ks, ci = list(op[1]), int(op[2][1:])
+                        lines.append(f"api {reg_name} [{val_strs(ks)},{val_cls('m', f'Q{ci}', counter[0])}]")
+                        register(ks)(classes[ci])
+                        impl.append(None)
+                    else:
+                        lines.append(f"api {set_name} [{val_str(op[1])},{val_str(op[2])}]")
+                        setp(op[1], op[2])
+                        impl.append("done")
+                    hist.append(list(op))
+                ck.case(("ext", which, repr(hist)), True)
+                ck.count(f"stream:ext-{which}")
+                table = core.lst(f"[{uids[id(o)]},{strs(subsets[classes.index(type(o))])}]" for o in keep)
+                for methods in ([only["methods"]] if only else ([all_methods[0]], all_methods[:2], all_methods[1:2], all_methods, [])):
+                    case = {"api": which, "history": hist, "methods": methods}
+                    got = list(sup(methods if len(methods) != 1 or rng.random() < 0.5 else methods[0]))
+                    lines.append(f"supported {sup_name} {strs(methods)} {table}")
+                    impl.append("exts " + strs(got))
+                    ck.oracle_evals += 1
+                    want = ["." + k for k in known() if not k.endswith("_str")
+                            and all(getattr(type(get(k)), m) is not getattr(base, m) for m in methods)]
+                    if got != want:
+                        ck.violation("supported-extensions", f"{which}: {sup_name}({methods}) = {got}, the statement gives {want}", case)
+            yield which, hist, lines, impl
+
+
+def compare_streams(ck, gen, key, tag):
+    """run the generated (lines, implementation answers) of several histories through the model in one batch"""
+    all_lines, all_impl, owner, metas = [], [], [], []
+    for which, hist, lines, impl in gen:
+        metas.append((which, hist))
+        all_lines += lines
+        all_impl += impl
+        owner += [len(metas) - 1] * len(lines)
+    model = core.lean_driver(PROP, all_lines)
+    seen = set()
+    for i, (a, b) in enumerate(zip(all_impl, model)):
+        if a is not None and a != b and owner[i] not in seen:
+            seen.add(owner[i])
+            which, hist = metas[owner[i]]
+            ck.disagree(key, f"{which}: after {all_lines[i]!r}: implementation {a!r}, model {b!r}",
+                        {"api": which, "history": hist, "line": all_lines[i]})
+    return metas
 
 
 def run(ck):
@@ -627,14 +1008,14 @@ def run(ck):
     hists = [[(op[0], op[1], op[2]) if len(op) == 3 else tuple(op) for op in h] for h in hists]
     if hists:
         compare(ck, hists, "corpus")
-    # the known collision history (kept so that the finding is re-derived on every run)
-    compare(ck, [[("addinst", ["c"], "U"), ("addinst", ["b_c"], "X")]], "collision")
+    # the two witnesses of the recorded finding (re-derived on the real code on every run)
+    compare(ck, [list(w) for w in WITNESSES], "collision")
     alpha = alphabet(full=not ck.quick)
     if ck.quick:
         space = [list(h) for n in (1, 2, 3) for h in itertools.product(alpha, repeat=n)]
         ck.rng.shuffle(space)
         hists = space[:400]
-        hists += [[ck.rng.choice(alphabet(True)) for _ in range(12)] for _ in range(150)]
+        hists += [[ck.rng.choice(alphabet(True) + COLLIDE_OPS) for _ in range(12)] for _ in range(150)]
         compare(ck, hists, "sampled")
     else:
         total = 0
@@ -651,27 +1032,19 @@ def run(ck):
                 total += len(batch)
         ck.exhaustive = True
         ck.extra["exhaustive_space"] = f"all {total} histories of length <= 4 over {len(alpha)} operations"
-        compare(ck, [[ck.rng.choice(alpha) for _ in range(12)] for _ in range(2000)], "random-12")
-    # public API
-    all_lines, all_impl, owner, metas = [], [], [], []
-    for which, hist, lines, impl in public_api(ck):
-        metas.append((which, hist))
-        all_lines += lines
-        all_impl += impl
-        owner += [len(metas) - 1] * len(lines)
-        ck.case(("api", which, repr(hist)), any(h[0] == "register" for h in hist))
-        ck.count(f"stream:api-{which}")
-    model = core.lean_driver(PROP, all_lines)
-    seen = set()
-    for i, (a, b) in enumerate(zip(all_impl, model)):
-        if b.startswith("found "):
-            b = b.split("#")[0]
-        if a != b and owner[i] not in seen:
-            seen.add(owner[i])
-            which, hist = metas[owner[i]]
-            ck.disagree("model-vs-public-api", f"{which}: after {all_lines[i]!r}: implementation {a!r}, model {b!r}",
-                        {"api": which, "history": hist})
-    dispatch_stream(ck)
+        compare(ck, [[ck.rng.choice(alpha + COLLIDE_OPS) for _ in range(12)] for _ in range(2000)], "random-12")
+    # public API (all three registries, through the regenerated table)
+    def counted(gen):
+        for which, hist, lines, impl in gen:
+            ck.case(("api", which, repr(hist)), any(h[0] == "register" for h in hist))
+            ck.count(f"stream:api-{which}")
+            for h in hist:
+                ck.count(f"api:{h[0]}-{h[1]}")
+            yield which, hist, lines, impl
+    metas = compare_streams(ck, counted(public_api(ck)), "model-vs-public-api", "api")
+    infer_stream(ck)
+    compare_streams(ck, dispatch_stream(ck), "dispatch-model-vs-impl", "dispatch")
+    compare_streams(ck, ext_stream(ck), "extensions-model-vs-impl", "ext")
     ck.sample({"history": [["addinst", ["a"], "X"], ["addinst", ["a"], "Z"], ["set", "a", "m.B_a"]],
                "observed_after_each_op": "registered_plugins(full/short) + lookup of every key"})
     if metas:
@@ -686,6 +1059,16 @@ def search(ck):
         run_history(ck, h)
         if ck.violations:
             return
+    # the oracles of the public API and of the convenience functions (the model's answers are not used here)
+    for _ in public_api(ck):
+        if ck.violations:
+            return
+    for _ in dispatch_stream(ck):
+        if ck.violations:
+            return
+    for _ in ext_stream(ck):
+        if ck.violations:
+            return
 
 
 def replay(ck, case):
@@ -697,8 +1080,18 @@ def replay(ck, case):
                 continue
             compare(ck, [h], "replay")
         return
+    if c.get("api") and "function" in c:        # a call of a convenience function
+        compare_streams(ck, dispatch_stream(ck, only=c), "dispatch-model-vs-impl", "dispatch")
+        for d in ck.disagreements:
+            print("DISAGREEMENT", d["what"])
+        return
+    if c.get("api") and "methods" in c:         # supported_file_extensions_*
+        compare_streams(ck, ext_stream(ck, only=c), "extensions-model-vs-impl", "ext")
+        for d in ck.disagreements:
+            print("DISAGREEMENT", d["what"])
+        return
     if c.get("api"):
-        print("replay of public-API histories: re-run the check with the recorded seed")
+        print("replay of mixed public-API histories: re-run the check with the recorded seed")
         return
     h = [tuple(op) for op in c["history"]]
     compare(ck, [h], "replay")
